@@ -48,6 +48,7 @@ def concStep (s : DState) : List String → Option (DState × String)
       | ["lose"] => some (concAct s sys t .lose none)
       | ["add", now] => some (concAct s sys t .fetchAdd (now.toInt?))
       | ["reread"] => some (concAct s sys t .reread none)
+      | ["acc"] => some (s, "ok")
       | ["tdec"] => some (s, if sys.torn = 1 then "ok" else "not-enabled")
       | ["torn", last, nfrees] =>
         (match last.toInt?, nfrees.toNat? with
